@@ -343,6 +343,10 @@ pub fn check(case: &Case) -> Result<(), String> {
     Ok(())
 }
 
+pub fn set_heap(on: bool) {
+    HEAP.with(|h| *h.borrow_mut() = on);
+}
+
 pub fn strategy() -> impl Strategy<Value = Case> {
     let idx = any::<usize>();
     let op = prop_oneof![
